@@ -4,6 +4,7 @@ from vsym.runner import Ob
 from .common import *
 
 PROPERTY = 'C11'
+DEBUG_LOG = ['vbs/blocked/1rec/close', 'ipm/unblocked/1rec/exit']      # obligations that are also explored with debug logging switched on
 ASSUMPTIONS = [
     'file object = RopeFile with io.BytesIO positional-overwrite semantics; real files on disk are outside the claim',
     'record content opaque; record lengths symbolic',
